@@ -84,6 +84,8 @@ type ScopeCfg struct {
 	NoMulti bool // no multiply-assigned globals (every global has at most one definition site)
 	JoinPct int  // see Trivia.JoinPct
 	GluePct int  // see Trivia.GluePct (-1 = drawn per workspace)
+	Zoo     bool // string literals from the zoo: every escape form, non-ASCII text, long strings over several lines (also with
+	// non-ASCII text on their last line and with a line break directly after the opening bracket)
 }
 
 // GenScopeWS builds a workspace of valid programs with shadowing, closures and cross-file globals.
@@ -133,7 +135,7 @@ func GenScopeWS(r *Rng, sc ScopeCfg) *ScopeWS {
 			cfg.MaxDepth = sc.Depth
 			cfg.ExpDepth = rr.Range(1, 3)
 			cfg.Stats = sc.Stats
-			cfg.StringZoo = false
+			cfg.StringZoo = sc.Zoo
 			cfg.NumeralZoo = false
 			cfg.NoLongArgs = true
 			cfg.Goto = !sc.NoGoto && rr.Chance(1, 3)
